@@ -2521,6 +2521,12 @@ def run(prop, tier, seed, proof):
         PLANS[prop]["fn"](ctx)
     finally:
         ctx.close()
+    # every VAL case also went through the evaluator whose keyword functions are the interpreted,
+    # regenerated source (JS.Py.EvalSrc); a difference from the hand-written model is a disagreement
+    for d in ctx.drv.src_diffs:
+        ctx.res.disagree("SRC", d["case"], d["model"], d["source"],
+                         "interpreted source differs from the hand-written model: " + str(corr.diff(d["model"], d["source"])))
+    ctx.res.distribution["VAL cases also run through the interpreted source"] = ctx.drv.src_runs
     return ctx.res
 
 
